@@ -1,2 +1,3 @@
 pub mod network;
 pub mod powertrain;
+pub mod train;
